@@ -178,9 +178,31 @@ def r1b_despan_dispatch(rep, facts, cg):
                 has = any(n.get('k') == 'mcall' and n.get('name') == 'despan' for n in walk(arm['body']))
                 for v in vs:
                     seen[v] = seen.get(v, False) or has
+        # decided by evaluating the function on a node of every variant, with and without a span of its own, with the forwarded despan recorded: the
+        # payload is despanned exactly once in every case (a node without a span may still hold spanned children: intermediate inline tables created for
+        # dotted keys); the reading of the match above is the fallback
+        sem = {}
+        try:
+            from .den import RecInterp, Evaluator as _EV, Unanalysable as _UN, EvalPanic as _EP
+            pn = [p_['name'] for p_ in b.get('params', []) if p_.get('k') == 'p_bind']
+            for v in variants:
+                oks = []
+                for span in (('ctor', 'core::option::Option::None'), ('ctor', 'core::option::Option::Some', (('range', 0, 0),))):
+                    it = RecInterp(_EV(facts), {'despan'}, stubs={'span': span})
+                    node = ('ctor', adt['path'] + '::' + v['name'], (('payload', v['name']),))
+                    env = {pn[0]: node, '@assign': {}}
+                    for extra in pn[1:]:
+                        env[extra] = '<input>'
+                    it.run_body(b, env)
+                    oks.append([r for nm, r, a in it.trace if nm == 'despan'] == [('payload', v['name'])])
+                sem[v['name']] = all(oks)
+        except (_UN, _EP, KeyError, IndexError, TypeError):
+            sem = {}
         for v in variants:
-            rep.check(R, f'{last_seg(d.rsplit("::", 1)[0])}::despan|{v["name"]}', seen.get(v['name'], False), 'forwards despan',
-                      f'`{d}` does not despan the payload of variant `{v["name"]}`', facts.loc(b))
+            good = sem[v['name']] if v['name'] in sem else seen.get(v['name'], False)
+            rep.check(R, f'{last_seg(d.rsplit("::", 1)[0])}::despan|{v["name"]}', good, 'forwards despan (with or without a span of its own)',
+                      f'`{d}` does not despan the payload of variant `{v["name"]}` in every case (e.g. when the node itself has no span): what lies below keeps span references '
+                      f'into a source that is dropped, and prints with default text', facts.loc(b))
     b = facts.body(INTO_MUT)
     calls = [n for n in walk(b['body']) if n.get('k') == 'mcall' and n.get('name') == 'despan']
     rep.check(R, 'into_mut|calls-despan', len(calls) >= 1, 'into_mut calls despan', 'into_mut no longer despans the document', facts.loc(b))
@@ -405,6 +427,29 @@ def r2b_key_path_decor(rep, facts):
                   ' — whitespace of headers / dotted keys is printed from a different key than the parser stored it on', facts.loc(b))
 
 
+def r1d_initial_state(rep, facts):
+    R = rep.rule('C03/R1d', 'the parser starts with no pending trivia: ParseState::new() (evaluated) has `trailing == None`.  Pending whitespace / comments are merged as '
+                 '`pending.start..new.end`, which is only the text between them when the pending span was itself reported by the grammar; a pending span invented at offset 0 '
+                 'would swallow the byte-order mark the grammar skips without reporting, and print it back in front of the first key', floor=1)
+    from .den import Interp, Evaluator, Unanalysable, EvalPanic
+    d = 'toml_edit::parser::state::ParseState::new'
+    if not facts.has_body(d):
+        rep.incomplete(R, 'ParseState::new', 'not found')
+        return
+    b = facts.body(d)
+    try:
+        from .den import RecInterp
+        it = RecInterp(Evaluator(facts), set(), {'default', 'new', 'with_capacity'})
+        r = it.apply_fn(b, [])
+    except (Unanalysable, EvalPanic) as e:
+        rep.incomplete(R, 'ParseState::new', f'cannot evaluate: {e}', facts.loc(b))
+        return
+    st = r[2] if isinstance(r, tuple) and len(r) == 3 and r[0] == 'struct' else {}
+    tr = st.get('trailing')
+    rep.check(R, 'ParseState::new|no-pending-trivia', tr == ('ctor', 'core::option::Option::None'), 'trailing: None',
+              f'ParseState::new() starts with pending trivia {tr!r}: the first whitespace / comment span is merged with it and takes in bytes the grammar skipped (a byte-order mark)', facts.loc(b))
+
+
 def r3_header_order(rep, facts):
     R = rep.rule('C03/R3', 'header order: both header starters bump the position counter before recording it and write the same '
                  'current_table fields; the printer sorts stably and visits a table before its children', floor=6)
@@ -539,6 +584,7 @@ def rules(rep, facts):
     r2_order(rep, facts)
     r2b_key_path_decor(rep, facts)
     r3_header_order(rep, facts)
+    r1d_initial_state(rep, facts)
     r4_cr(rep, facts)
 
 
